@@ -313,10 +313,11 @@ Proof. exact query_closed. Qed.
 Print Assumptions C09_compare_query_closed.
 
 (* GeoMean of at most 64 unweighted values (tag bit 32): exp / ln are never evaluated — the observed g is positive and
-   its n-th power is within the relative tolerance geo_rel n = 64 n (n + 8) 2^-52 of the product of the values *)
+   its n-th power is within the relative tolerance geo_scale xs * geo_rel n, geo_rel n = 64 n (n + 8) 2^-52 and
+   geo_scale xs = max(1, max |log2 x_i| / 64) (1 at ordinary magnitudes), of the product of the values *)
 Theorem C09_compare_geomean_sound : forall xs g, (length xs <= 64)%nat ->
   g_check xs (geomean xs) 0 (XFin g) <> 2%Z -> geomean xs <> GNaN ->
-  0 < g /\ Qabs (Qpw g (length xs) - Qprod xs) <= geo_rel (length xs) * Qprod xs.
+  0 < g /\ Qabs (Qpw g (length xs) - Qprod xs) <= geo_scale xs * geo_rel (length xs) * Qprod xs.
 Proof. exact geomean_value_sound. Qed.
 Print Assumptions C09_compare_geomean_sound.
 Example C09_geomean_example : g_check [2; 8] (geomean [2; 8]) 0 (XFin 4) = 0%Z /\ geomean [2; 8] <> GNaN /\
